@@ -76,6 +76,11 @@ theorem inv_env (s s' : St) (a : Act) (ha : a.isEnv = true) (hi : Inv s) (h : st
     split at h
     · simp at h; subst h; conc_close
     · simp at h
+  case envDeadline sid =>
+    simp only [step, E, Choreo.expected, Bool.true_or, ite_true] at h
+    split at h
+    · simp at h; subst h; conc_close
+    · simp at h
   case envStart i =>
     simp only [step] at h
     split at h
@@ -158,6 +163,7 @@ theorem inv_rlHandle (s s' : St) (hi : Inv s) (h : step E s .rlHandle = some s')
       | shutdownComplete =>
         simp only [E, Choreo.expected, applyOps, List.foldl, applyOp, Option.some.injEq] at h
         subst h; conc_close
+      | shutdownAck => simp at h; subst h; conc_close
     · simp at h
   · simp at h
 
@@ -397,9 +403,12 @@ theorem inv_call (s s' : St) (i arm : Nat) (hi : Inv s) (h : step E s (.call i a
         · simp only [E, Choreo.expected, applyOp, ite_true, Option.some.injEq] at h; subst h; conc_close_call
       · simp at h
     | shWait =>
-      simp only [E, Choreo.expected, Bool.true_and] at h
-      split at h <;>
-        (simp only [Option.ite_none_right_eq_some, Option.some.injEq] at h; obtain ⟨hg, rfl⟩ := h; conc_close_call)
+      simp only [E, Choreo.expected, Bool.true_and, ite_true] at h
+      split at h
+      · simp only [Option.ite_none_right_eq_some, Option.some.injEq] at h
+        obtain ⟨hg, hl, rfl⟩ := h
+        conc_close_call
+      · simp only [Option.ite_none_right_eq_some, Option.some.injEq] at h; obtain ⟨hg, rfl⟩ := h; conc_close_call
     | cl k =>
       simp only [callerInv, Bool.and_eq_true, Bool.or_eq_true, decide_eq_true_eq] at hc0
       rcases k with _|_|_|_|_|k
